@@ -39,6 +39,13 @@ type logFile struct {
 	ext      string
 	fileSize int64
 	chunks   []chunk
+	// compressed value logs never split a record: a chunk may be longer than fileSize, and the bytes of a record
+	// are addressed by (chunk, offset in chunk).  Span offsets in such a log are synthetic: chunk<<32 | in-chunk offset
+	compressed bool
+}
+
+func (lf *logFile) synth(logical int64) int64 {
+	return (logical/lf.fileSize)<<32 | (logical % lf.fileSize)
 }
 
 func loadLog(dir, region, ext string, fileSize int) (*logFile, error) {
@@ -71,6 +78,9 @@ func loadLog(dir, region, ext string, fileSize int) (*logFile, error) {
 func (lf *logFile) phys(off int64) (string, int64, error) {
 	c := off / lf.fileSize
 	in := off % lf.fileSize
+	if lf.compressed {
+		c, in = off>>32, off&0xffffffff
+	}
 	if c < 0 || int(c) >= len(lf.chunks) || in >= int64(len(lf.chunks[c].data)) {
 		return "", 0, fmt.Errorf("%s: logical offset %d is outside the files", lf.region, off)
 	}
@@ -101,10 +111,10 @@ func (lf *logFile) read(off int64, n int) ([]byte, error) {
 	return out, nil
 }
 
-// readInChunk reads n bytes that live inside one chunk (compressed value logs never split a record).
+// readInChunk reads n bytes at a synthetic offset (chunk<<32 | in-chunk offset) of a compressed log
 func (lf *logFile) readInChunk(off int64, n int) ([]byte, error) {
-	c := off / lf.fileSize
-	in := off % lf.fileSize
+	c := off >> 32
+	in := off & 0xffffffff
 	if int(c) >= len(lf.chunks) || in+int64(n) > int64(len(lf.chunks[c].data)) {
 		return nil, io.ErrUnexpectedEOF
 	}
@@ -249,6 +259,7 @@ func parseLayout(dir string, cfg *cfgClass, ntx int) (*layout, error) {
 			if l.logs[rVal(i)], err = loadLog(dir, rVal(i), "val", cfg.FileSize); err != nil {
 				return nil, err
 			}
+			l.logs[rVal(i)].compressed = cfg.Compression != 0
 		}
 	}
 	add := func(region string, off int64, n int, field string, tx, entry int, val uint64) int {
@@ -451,12 +462,13 @@ func parseLayout(dir string, cfg *cfgClass, ntx int) (*layout, error) {
 					if lf == nil {
 						return nil, fmt.Errorf("tx %d entry %d: value log id %d", t, e, vlogID)
 					}
-					cl, err := lf.readInChunk(voff, 4)
+					sv := lf.synth(voff)
+					cl, err := lf.readInChunk(sv, 4)
 					if err != nil {
 						return nil, err
 					}
 					clen := int(binary.BigEndian.Uint32(cl))
-					cb, err := lf.readInChunk(voff+4, clen)
+					cb, err := lf.readInChunk(sv+4, clen)
 					if err != nil {
 						return nil, err
 					}
@@ -468,8 +480,8 @@ func parseLayout(dir string, cfg *cfgClass, ntx int) (*layout, error) {
 						return nil, fmt.Errorf("tx %d entry %d: decompressed %d bytes, vLen %d", t, e, len(v), ei.VLen)
 					}
 					ei.Value = v
-					i1 := add(rVal(vlogID-1), voff, 4, "valCLen", t, e, uint64(clen))
-					i2 := add(rVal(vlogID-1), voff+4, clen, "valComp", t, e, 0)
+					i1 := add(rVal(vlogID-1), sv, 4, "valCLen", t, e, uint64(clen))
+					i2 := add(rVal(vlogID-1), sv+4, clen, "valComp", t, e, 0)
 					l.spans[i1].inChunk, l.spans[i2].inChunk = true, true
 				}
 				if sha256.Sum256(ei.Value) != ei.HVal {
